@@ -95,6 +95,7 @@ type wexpr struct {
 	name  string
 	args  []*wexpr
 	bits  uint32 // literal payload
+	alias string // alternative spelling used when rendering with wrender.unshadow (entity-level renaming)
 	konst bool   // constant expression (foldable at shader-creation time)
 	small bool   // constant known to be a small non-negative value (<= 8)
 }
@@ -149,6 +150,7 @@ type renderOpts struct {
 	rng           interface{ Float64() float64 }
 	parenProb     float64
 	trailingComma bool
+	unshadow      bool // spell shadowing locals with their fresh alias instead of the shadowed name
 }
 
 var wrender *renderOpts
@@ -174,6 +176,9 @@ func (e *wexpr) wgsl0() string {
 	case "lit":
 		return litStr(e.ty, e.bits)
 	case "var":
+		if wrender != nil && wrender.unshadow && e.alias != "" {
+			return e.alias
+		}
 		return e.name
 	case "bin":
 		return "(" + e.args[0].wgsl() + " " + e.op + " " + e.args[1].wgsl() + ")"
@@ -236,6 +241,7 @@ func (e *wexpr) sexp() string {
 // ---------- statements ----------
 
 type wstmt struct {
+	alias string // see wexpr.alias
 	k     string // let var const assign opassign incr decr if switch loop for while break continue return callstmt block
 	name  string
 	ty    *wty
@@ -270,10 +276,14 @@ func block(ss []*wstmt, ind int) string {
 func (s *wstmt) inline() string { // statement without indentation / terminator (for `for` headers)
 	switch s.k {
 	case "var":
-		if s.e != nil {
-			return fmt.Sprintf("var %s: %s = %s", s.name, s.ty, s.e.wgsl())
+		name := s.name
+		if wrender != nil && wrender.unshadow && s.alias != "" {
+			name = s.alias
 		}
-		return fmt.Sprintf("var %s: %s", s.name, s.ty)
+		if s.e != nil {
+			return fmt.Sprintf("var %s: %s = %s", name, s.ty, s.e.wgsl())
+		}
+		return fmt.Sprintf("var %s: %s", name, s.ty)
 	case "assign":
 		return s.lhs.wgsl() + " = " + s.e.wgsl()
 	case "opassign":
@@ -457,6 +467,8 @@ type wglobal struct {
 	init    *wexpr
 }
 type wmodule struct {
+	shadowConsts []wfield // dedicated module constants for shadowing tests
+	lateDecls bool // render module-scope consts / private globals after the functions (forward references)
 	structs []*wty
 	globals []*wglobal
 	consts  []*wstmt
@@ -521,15 +533,29 @@ func (m *wmodule) wgsl() string {
 		b.WriteString("}\n")
 	}
 	for _, g := range m.globals {
-		b.WriteString(g.decl())
+		if !(m.lateDecls && g.space == "private") {
+			b.WriteString(g.decl())
+		}
 	}
-	for _, c := range m.consts {
-		b.WriteString(c.wgsl(0))
+	if !m.lateDecls {
+		for _, c := range m.consts {
+			b.WriteString(c.wgsl(0))
+		}
 	}
 	for _, f := range m.funcs {
 		b.WriteString(f.wgsl(false, 0))
 	}
 	b.WriteString(m.entry.wgsl(true, m.wg))
+	if m.lateDecls {
+		for _, c := range m.consts {
+			b.WriteString(c.wgsl(0))
+		}
+		for _, g := range m.globals {
+			if g.space == "private" {
+				b.WriteString(g.decl())
+			}
+		}
+	}
 	return b.String()
 }
 
@@ -601,6 +627,8 @@ type wgenOpts struct {
 	privInit   bool // give private globals initialisers (known finding: SPIR-V drops InitExpr initialisers)
 	swBreak    bool // explicit `break` at the end of switch clauses (known finding: SPIR-V OpUnreachable merge)
 	absU       bool // abs() on unsigned operands (known finding: SPIR-V uses SAbs)
+	forceShadow bool // always begin main with a shadowing block and declare module constants after the functions
+	shadowUse  bool // also use a shadowed module name outside the shadowing block (known finding: DependencyOrder)
 	vecInit    bool // allow vector-typed private-global initialisers (known finding: literal kinds)
 	negInit    bool // allow private-global initialisers that are not plain literals (e.g. -5i)
 }
@@ -1247,6 +1275,44 @@ func (g *wgen) stmt(depth int) *wstmt {
 	switch {
 	case r < 18:
 		return g.storeOut(3)
+	case r < 20:
+		// shadow a module-scope name: `var SHk: T = SHk ^ <run-time>;` — SHk is a dedicated module constant that
+		// nothing else refers to (unless the shadowUse knob adds a second, unshadowed use in another block).
+		if len(g.m.shadowConsts) > 0 && !g.inCont {
+			k := g.m.shadowConsts[g.c.rng.Intn(len(g.m.shadowConsts))]
+			outer := &wexpr{k: "var", ty: k.ty, name: k.name, konst: true, small: true}
+			init := &wexpr{k: "bin", ty: k.ty, op: "^", args: []*wexpr{outer, g.load(k.ty)}}
+			if g.o.shadowUse {
+				init = g.load(k.ty) // the shadowing local does not mention the module-scope name
+			}
+			g.f("shadow-module-name")
+			alias := g.fresh("unsh")
+			body := []*wstmt{{k: "var", name: k.name, alias: alias, ty: k.ty, e: init}}
+			// use the shadowing local once so it is live
+			use := &wexpr{k: "var", ty: k.ty, name: k.name, alias: alias}
+			var v *wexpr = use
+			if k.ty.k == "i32" {
+				v = &wexpr{k: "bitcast", ty: tU32, args: []*wexpr{use}}
+			}
+			idx := g.outIdx % g.nOut
+			g.outIdx++
+			body = append(body, &wstmt{k: "assign", lhs: &wexpr{k: "idx", ty: tU32, args: []*wexpr{{k: "var", ty: tArr(0, tU32), name: "outp"}, {k: "lit", ty: tU32, bits: uint32(idx), konst: true, small: true}}}, e: v})
+			blk := &wstmt{k: "block", body: body}
+			if g.o.shadowUse {
+				// a use of the module-scope constant outside the shadowing block (known finding C08-deporder-shadow)
+				g.f("shadow-plus-outer-use")
+				var ov *wexpr = outer
+				if k.ty.k == "i32" {
+					ov = &wexpr{k: "bitcast", ty: tU32, args: []*wexpr{outer}}
+				}
+				idx2 := g.outIdx % g.nOut
+				g.outIdx++
+				outerUse := &wstmt{k: "assign", lhs: &wexpr{k: "idx", ty: tU32, args: []*wexpr{{k: "var", ty: tArr(0, tU32), name: "outp"}, {k: "lit", ty: tU32, bits: uint32(idx2), konst: true, small: true}}}, e: ov}
+				return &wstmt{k: "block", body: []*wstmt{blk, outerUse}}
+			}
+			return blk
+		}
+		return g.storeOut(3)
 	case r < 30:
 		t := g.localTy()
 		name := g.fresh("vv")
@@ -1613,6 +1679,15 @@ func genModule(c *ctx, o wgenOpts) (*wmodule, map[string]int) {
 		globalsScope = append(globalsScope, wscopeVar{name: name, ty: t, konst: true, small: true})
 		g.f("const-module")
 	}
+	if c.chance(0.5) || o.forceShadow {
+		t := []*wty{tI32, tU32}[c.rng.Intn(2)]
+		name := "SH0"
+		if o.shadowUse {
+			name = "SX0" // the risky shape gets its own name so that its failures are attributable
+		}
+		g.m.consts = append(g.m.consts, &wstmt{k: "const", name: name, ty: t, e: g.lit(t, true)})
+		g.m.shadowConsts = append(g.m.shadowConsts, wfield{name: name, ty: t})
+	}
 	np := c.rng.Intn(3)
 	for i := 0; i < np; i++ {
 		t := g.valueTy()
@@ -1657,7 +1732,26 @@ func genModule(c *ctx, o wgenOpts) (*wmodule, map[string]int) {
 		body = append(body, g.storeOut(3))
 	}
 	g.pop()
+	if o.forceShadow && len(g.m.shadowConsts) > 0 {
+		k := g.m.shadowConsts[0]
+		alias := g.fresh("unsh")
+		outer := &wexpr{k: "var", ty: k.ty, name: k.name, konst: true, small: true}
+		init := &wexpr{k: "bin", ty: k.ty, op: "^", args: []*wexpr{outer, g.load(k.ty)}}
+		use := &wexpr{k: "var", ty: k.ty, name: k.name, alias: alias}
+		var v *wexpr = use
+		if k.ty.k == "i32" {
+			v = &wexpr{k: "bitcast", ty: tU32, args: []*wexpr{use}}
+		}
+		blk := &wstmt{k: "block", body: []*wstmt{{k: "var", name: k.name, alias: alias, ty: k.ty, e: init},
+			{k: "assign", lhs: &wexpr{k: "idx", ty: tU32, args: []*wexpr{{k: "var", ty: tArr(0, tU32), name: "outp"}, {k: "lit", ty: tU32, bits: 15, konst: true}}}, e: v}}}
+		body = append([]*wstmt{blk}, body...)
+		g.f("forced-shadow")
+	}
 	g.m.entry = &wfunc{name: "main", body: body}
+	g.m.lateDecls = c.chance(0.4) || o.forceShadow
+	if g.m.lateDecls {
+		g.f("late-module-decls")
+	}
 	return g.m, g.feat
 }
 
@@ -1674,5 +1768,5 @@ func hasNegLit(e *wexpr) bool {
 }
 
 func defaultGenOpts(c *ctx) wgenOpts {
-	return wgenOpts{swBreak: c.chance(0.3), absU: c.chance(0.1), negInit: c.chance(0.1), vecInit: c.chance(0.1), rawShift: c.chance(0.1), clz: c.chance(0.1), privInit: c.chance(0.3), maxStmts: 6 + c.rng.Intn(14), maxDepth: 1 + c.rng.Intn(3), floats: c.chance(0.5), helpers: c.rng.Intn(4), structs: c.chance(0.5)}
+	return wgenOpts{shadowUse: c.chance(0.1), swBreak: c.chance(0.3), absU: c.chance(0.1), negInit: c.chance(0.1), vecInit: c.chance(0.1), rawShift: c.chance(0.1), clz: c.chance(0.1), privInit: c.chance(0.3), maxStmts: 6 + c.rng.Intn(14), maxDepth: 1 + c.rng.Intn(3), floats: c.chance(0.5), helpers: c.rng.Intn(4), structs: c.chance(0.5)}
 }
